@@ -78,11 +78,11 @@ var c04Pool = []kval{
 	{"k_nhtm", func() interface{} { var p *htmler; return p }},               // typed nil pointer implementing HTMLer by value
 	{"k_nids", func() interface{} { var p *IDList; return p }},               // typed nil pointer to a named slice type with a value-receiver method
 	{"k_ids", func() interface{} { return &IDList{1, 2} }},
-	{"k_mb", func() interface{} { return "日本語日本語" }},                                            // multi-byte text
-	{"k_cyr", func() interface{} { return "абвгдежзийклмнопрстуфхцчшщъыьэюя" }},                 // >50 bytes, <50 runes
-	{"k_embid", func() interface{} { return WithNilEmbeddedID{} }},                              // embeds a nil pointer whose type has ID / Slug fields (pathFor)
-	{"k_fnhc", func() interface{} { return func(h NamedHelperContext) string { return "hc" } }}, // parameter convertible to, but not assignable from, plush.HelperContext
-	{"k_fnwide", func() interface{} { return func(h WideHelperContext) string { return "wide" } }},       // an interface that plush.HelperContext does not satisfy although it embeds the helper-context methods
+	{"k_mb", func() interface{} { return "日本語日本語" }},                                                // multi-byte text
+	{"k_cyr", func() interface{} { return "абвгдежзийклмнопрстуфхцчшщъыьэюя" }},                     // >50 bytes, <50 runes
+	{"k_embid", func() interface{} { return WithNilEmbeddedID{} }},                                  // embeds a nil pointer whose type has ID / Slug fields (pathFor)
+	{"k_fnhc", func() interface{} { return func(h NamedHelperContext) string { return "hc" } }},     // parameter convertible to, but not assignable from, plush.HelperContext
+	{"k_fnwide", func() interface{} { return func(h WideHelperContext) string { return "wide" } }},  // an interface that plush.HelperContext does not satisfy although it embeds the helper-context methods
 	{"k_fnphc", func() interface{} { return func(h *plush.HelperContext) string { return "phc" } }}, // pointer to the helper context: implements the interface, neither assignable nor convertible
 	{"k_fnhc2", func() interface{} {
 		return func(s string, m map[string]interface{}, h NamedHelperContext) string { return s }
